@@ -82,7 +82,7 @@ def run(prop, args):
             rep.add_violation(b, w, d, kind=k)
         return rep.finish()
     tier = args.tier
-    N = 60 if tier == "quick" else 160
+    N = 100 if tier == "quick" else 200
     parts = R.pmap(_table, [(N, lo, min(lo + 3, N)) for lo in range(1, N + 1, 4)], chunksize=1)
     entries = sum(c for c, _ in parts)
     rep.evaluations += entries
